@@ -1,8 +1,10 @@
 #!/bin/bash
-# usage: defects/run.sh <testfile> <pkgdir-relative-to-repo> [repo]  — copies a demonstration into the repo, runs it, removes it
+# usage: defects/run.sh <testfile> <pkgdir-relative-to-repo> [repo] [extra go test flags]
+# copies a demonstration (and the shared helper for the root package) into the repo, runs it, removes it
 export GOFLAGS=-mod=mod GOPROXY=off GOSUMDB=off GOTOOLCHAIN=local
-f=$1; pkg=${2:-.}; repo=${3:-/repo}
-cp "$(dirname "$0")/$f" "$repo/$pkg/zz_defects_test.go"
-(cd "$repo/$pkg" && go test -vet=off -count=1 -run 'TestDefect' . 2>&1 | grep -E "^(---|ok|FAIL|panic|\s+Error:|\s+Messages|#|\./)")
-rc=$?
-rm -f "$repo/$pkg/zz_defects_test.go"
+f=$1; pkg=${2:-.}; repo=${3:-/repo}; flags=$4
+here=$(cd "$(dirname "$0")" && pwd)
+cp "$here/$f" "$repo/$pkg/zz_defects_test.go"
+if [ "$pkg" = "." ] && grep -q "newGate" "$here/$f"; then cp "$here/gate_helper_test.go" "$repo/zz_gate_helper_test.go"; fi
+(cd "$repo/$pkg" && go test $flags -vet=off -count=1 -run 'TestDefect' . 2>&1 | grep -E "^(---|ok|FAIL|panic|WARNING: DATA|\s+Error:|\s+Messages|#|\./)")
+rm -f "$repo/$pkg/zz_defects_test.go" "$repo/zz_gate_helper_test.go"
